@@ -116,6 +116,7 @@ package parser
 // After the first token of a call a comment is skipped up to, not including,
 // the newline that ends it, so that the newline still ends the command.
 //@ func (*lexer).skipComment
+//@   loop "for" decreases[C01] srclen() - srcpos() if len(l.aliases) == 0
 //@   ensures[C07 C09] stays-in-the-source: old(len(l.aliases)) == 0 ==> len(l.aliases) == 0
 //@   ensures[C07 C09] newline-left: old(len(l.aliases)) == 0 ==> l.eof || l.err != nil || (srcpos() < srclen() && srcrune(srcpos()) == '\n')
 //@   ensures[C09] one-comment: len(l.comments) == old(len(l.comments)) + 1 && (forall j: 0 <= j && j < old(len(l.comments)) ==> l.comments[j] == old(l.comments[j]))
@@ -123,6 +124,9 @@ package parser
 //@   ensures[C09] one-comment: len(l.comments) == old(len(l.comments)) + 1 && (forall j: 0 <= j && j < old(len(l.comments)) ==> l.comments[j] == old(l.comments[j]))
 //@   ensures[C09 C04] hash-and-text: l.comments[len(l.comments)-1].Hash == old(l.pos) && l.comments[len(l.comments)-1].Text == old(l.b) && l.b == ""
 //@ func (*lexer).linebreak
+//@   loop "for" decreases[C01] srclen() - srcpos() if len(l.aliases) == 0
+//@   ensures[C09] stays-in-the-source: old(len(l.aliases)) == 0 ==> len(l.aliases) == 0
+//@   ensures[C09] stops-before-the-next-token: result && old(len(l.aliases)) == 0 ==> srcpos() < srclen() && srcrune(srcpos()) != ' ' && srcrune(srcpos()) != '\t' && srcrune(srcpos()) != '\n' && srcrune(srcpos()) != '#'
 //@   site NEXT = call parser.(*lexer).read
 //@   assert[C09 C04] at call parser.(*lexer).mark#2: comment-starts-at-its-first-hash: !at(NEXT, hash)
 //@   assert[C09] at call strings.(*Builder).WriteRune: text-only-inside-a-comment: hash
@@ -235,13 +239,19 @@ package parser
 //@ func (*lexer).lexRedir
 //@   site OP = call parser.(*lexer).emit#1
 //@   assert[C01 C07 C08] at call parser.(*lexer).emit#2: heredoc-delimiter-counted: site(OP) && (sitearg(OP, 1) == HEREDOC || sitearg(OP, 1) == HEREDOCI) && arg1 == WORD && old(l.heredoc.n) < 4294967295 ==> l.heredoc.n == old(l.heredoc.n) + 1
+// A word becomes a function NAME (or a for-loop variable) only after isName
+// has accepted its text.
 //@ func (*lexer).lexSimpleCmd
+//@   site ISNAME = call parser.(*lexer).isName
+//@   assert[C03] at call parser.(*lexer).emit#2: a-function-name-is-a-name: arg1 == NAME && site(ISNAME) && siteret(ISNAME)
 //@   site ASSIGN = call parser.(*lexer).isAssign
 //@   assert[C17] at call parser.(*lexer).subst: assignment-word-first: site(ASSIGN) && !siteret(ASSIGN)
 //@   requires len(l.word) >= 1
 //@ func (*lexer).lexSubshell
+//@   ensures[C07] opens-one-construct: len(l.stack) == old(len(l.stack)) + 1
 //@   requires tokready(l)
 //@ func (*lexer).lexGroup
+//@   ensures[C07] opens-one-construct: len(l.stack) == old(len(l.stack)) + 1
 //@   requires tokready(l)
 //@ func (*lexer).lexArithEval
 //@   requires tokready(l)
@@ -250,6 +260,8 @@ package parser
 // looked up: a reserved word is never replaced.
 //@ func (*lexer).lexFor
 //@   requires tokready(l)
+//@   site ISNAME = call parser.(*lexer).isName
+//@   assert[C03] at call parser.(*lexer).emit#2: a-loop-variable-is-a-name: arg1 == NAME && site(ISNAME) && siteret(ISNAME)
 //@   site SKIP1 = call parser.(*lexer).linebreak#1
 //@   site SKIP2 = call parser.(*lexer).linebreak#2
 //@   site SKIP3 = call parser.(*lexer).linebreak#3
@@ -266,18 +278,25 @@ package parser
 //@ func (*lexer).lexCaseBreak
 //@   requires tokready(l)
 //@ func (*lexer).lexIf
+//@   ensures[C07] opens-one-construct: len(l.stack) == old(len(l.stack)) + 1
 //@   requires tokready(l)
 //@ func (*lexer).lexElif
+//@   ensures[C07] same-nesting-depth: len(l.stack) == old(len(l.stack)) && (forall j: 0 <= j && j < len(l.stack) - 1 ==> l.stack[j] == old(l.stack[j]))
 //@   requires tokready(l)
 //@ func (*lexer).lexThen
+//@   ensures[C07] same-nesting-depth: len(l.stack) == old(len(l.stack)) && (forall j: 0 <= j && j < len(l.stack) - 1 ==> l.stack[j] == old(l.stack[j]))
 //@   requires tokready(l)
 //@ func (*lexer).lexElse
+//@   ensures[C07] same-nesting-depth: len(l.stack) == old(len(l.stack)) && (forall j: 0 <= j && j < len(l.stack) - 1 ==> l.stack[j] == old(l.stack[j]))
 //@   requires tokready(l)
 //@ func (*lexer).lexWhile
+//@   ensures[C07] opens-one-construct: len(l.stack) == old(len(l.stack)) + 1
 //@   requires tokready(l)
 //@ func (*lexer).lexUntil
+//@   ensures[C07] opens-one-construct: len(l.stack) == old(len(l.stack)) + 1
 //@   requires tokready(l)
 //@ func (*lexer).lexDo
+//@   ensures[C07] same-nesting-depth: len(l.stack) == old(len(l.stack)) && (forall j: 0 <= j && j < len(l.stack) - 1 ==> l.stack[j] == old(l.stack[j]))
 //@   requires tokready(l)
 //@ func (*lexer).lexFuncDef
 //@   requires tokready(l)
@@ -326,6 +345,8 @@ package parser
 //@   site THISPOS = call ast.(*Lit).Pos
 //@   assert[C04 C08] at call parser.(*lexer).mark#2: body-lines-are-joined-only-after-comparing-end-and-start: site(PREVEND) == site(THISPOS)
 //@   site NLSTORED = call strings.(*Builder).WriteByte
+//@   site FIRST = call parser.(*lexer).read#1
+//@   assert[C08] at call strings.(*Builder).WriteRune: body-character-copied-as-read: arg1 == siteret(FIRST)
 //@   assert[C08] at call parser.(*lexer).mark#2: newline-of-the-body-is-kept: w1 != nil || site(NLSTORED)
 //@   assert[C08] at call parser.(*lexer).scanParamExp: body-expanded-only-if-unquoted: !quoted
 //@   assert[C08] at call parser.(*lexer).scanCmdSubst: body-expanded-only-if-unquoted: !quoted
@@ -375,7 +396,7 @@ package parser
 //@   site COL = call ast.(Pos).Col
 //@   site LINE = call parser.(*lexer).print
 //@   site TABS = call strings.TrimLeft
-//@   ensures[C07 C08] delimiter-line-is-a-whole-line-equal-to-the-delimiter: result ==> site(COL) && siteret(COL) == 1 && site(LINE) && (siteret(LINE) == delim || (r.Op == "<<-" && site(TABS) && sitearg(TABS, 0) == siteret(LINE) && sitearg(TABS, 1) == "\t" && siteret(TABS) == delim))
+//@   ensures[C03 C07 C08] delimiter-line-is-a-whole-line-equal-to-the-delimiter: result ==> site(COL) && siteret(COL) == 1 && site(LINE) && (siteret(LINE) == delim || (r.Op == "<<-" && site(TABS) && sitearg(TABS, 0) == siteret(LINE) && sitearg(TABS, 1) == "\t" && siteret(TABS) == delim))
 //@   ensures[C08] partition: result ==> r.Heredoc == old(l.word)[:i] && r.Delim == old(l.word)[i:] && 0 <= i && i < old(len(l.word)) && len(l.word) == 0
 //@   ensures[C08] nothing-moved: !result ==> l.word == old(l.word)
 //@   loop "for i := len(l.word) - 1; i >= 0; i--" invariant i < len(l.word)
@@ -384,7 +405,9 @@ package parser
 // grammar then guarantees one command that is a subshell or an arithmetic
 // evaluation; this is a property of the LALR automaton, not of this function.
 //@ func (*lexer).scanCmdSubst
+//@   requires[C04] opening-character-is-marked: len(l.aliases) == 0 ==> l.pos.line == l.line && l.pos.col == l.col - 1
 //@   ensures[C03 C04] position-resynchronised: result ==> l.line == ll.line && l.col == ll.col && l.pos == ll.pos
+//@   assert[C08] at call parser.(*lexer).run: nested-lexer-starts-with-its-own-empty-queue: ll.heredoc.n == 0 && len(ll.heredoc.stack) == 0 && ll != l
 //@   assert[C10] at call sync.(*Mutex).Unlock: nested-error-recorded: l.err != nil && (!(ll.err is Error) && old(l.err) == nil ==> l.err == ll.err)
 //@   waive bounds "ll.cmds[0]" needs the grammar-level fact that an accepted substitution yields exactly one command
 //@   waive assert "ll.cmds[0].(*ast.Cmd)" needs the grammar-level fact that an accepted substitution yields a *ast.Cmd
@@ -402,9 +425,15 @@ package parser
 
 // What ParseCommands reports is the error slot of its lexer.
 //@ func ParseCommands
+//@   site PARSED = call parser.yyParse
+//@   ensures[C10 C03] slot-untouched-after-the-parse: err == nil ==> result2 == after(PARSED, l.err)
 //@   ensures[C10 C03] returns-error-slot: err == nil ==> result2 == l.err
 
+// open only wraps its argument: it reads nothing from it (a read made here
+// could swallow a failure before the lexer's error slot exists).
 //@ func open
+//@   callsonly[C10 C07] bytes.NewReader strings.NewReader bufio.NewReader errors.New
+//@   ensures[C07] a-rune-scanner-is-read-directly: (src is *strings.Reader || src is *bytes.Reader || src is *bufio.Reader) ==> err == nil && r == src
 //@   ensures err == nil ==> r != nil
 
 // ---- grammar symbols: what a value of each kind holds (the parser's side of wf) ----
